@@ -248,6 +248,10 @@ class Session:
                 data = {n: col_array(cs) for n, cs in op["cols"]}
                 t = Table(data, index=op["index"])
                 for k, v in op.get("scalars", []):
+                    if isinstance(v, dict) and "np" in v:
+                        # scalar entries that are numpy objects: scalars, 0-d arrays, arrays of another length
+                        v = {"float64": lambda x: np.float64(x), "int64": lambda x: np.int64(x),
+                             "zero_d": lambda x: np.array(x), "array": lambda x: np.array(x)}[v["np"]](v["v"])
                     t[k] = v
                 if op.get("reset", True):
                     self.pool = [t]
@@ -448,9 +452,10 @@ class Session:
                     self.fail("C14", "source-changed", {"step": stp, "steps": op["steps"]})
                     break
                 if stp[0] in ("rows", "cols"):
-                    for k in [k for k, v in src._data.items() if not hasattr(v, "dtype")]:
-                        if k not in nxt._data or nxt._data[k] != src._data[k]:
-                            self.fail("C14", "scalar-not-carried", {"step": stp, "scalar": k})
+                    for k in [k for k in src._data if k not in src._col_names]:
+                        if k not in nxt._data or not np.array_equal(np.asarray(nxt._data[k], dtype=object),
+                                                                    np.asarray(src._data[k], dtype=object)):
+                            self.fail("C14", "scalar-not-carried", {"step": stp, "scalar": k, "value": repr(src._data[k])[:40]})
                             break
         elif kind == "exprcol" and exc == "ok":
             st["c14_exprcols"] = st.get("c14_exprcols", 0) + 1
@@ -659,6 +664,9 @@ def gen_c14(rng, sess):
     n = len(op["cols"][0][1])
     op["cols"].append(["x", [{"f": repr(0.5 * i)} for i in range(n)]])
     op["scalars"] = [["sc", 3.5], ["title", "hello"]]
+    if rng.random() < 0.5:
+        op["scalars"] += [["qx", {"np": "float64", "v": 0.31}], ["nturns", {"np": "int64", "v": 7}],
+                          ["aper", {"np": "array", "v": list(range(len(op["cols"][0][1]) + 2))}]]
     sess.step(op)
     t = sess.pool[0]
     col = [str(x) for x in t._data["name"]]
